@@ -44,6 +44,23 @@ func (g *rig) followUp(wait time.Duration) bool {
 		g.doInline(q)
 		close(done)
 	}()
+	if g.realtime {
+		switch g.waitRealtime(done) {
+		case "done":
+			return true
+		case "timeout":
+			g.mu.Lock()
+			g.dead = true
+			g.mu.Unlock()
+			g.e.Inconclusive("cache.race: the follow-up request after a panic did not complete within the real-time guard and no leaked lock was confirmed")
+			g.followUpInconclusive = true
+			return false
+		}
+		g.mu.Lock()
+		g.dead = true
+		g.mu.Unlock()
+		return false
+	}
 	select {
 	case <-done:
 		return true
@@ -70,10 +87,10 @@ func (g *rig) reportPanic(q *rq, class string, extra map[string]any) bool {
 	// no timers of its own on the request path), so a short virtual wait is exact; kept short
 	// because every virtual second costs a wake-up of the clock goroutine of every app built so far
 	wait := 50 * time.Millisecond
-	if g.realtime {
-		wait = 2 * time.Second
-	}
 	if !g.followUp(wait) {
+		if g.followUpInconclusive {
+			return false
+		}
 		delete(extra, "stack")
 		g.viol("deadlock|mutex-held-after-panic", "after the panic a further request never completes (the middleware's mutex is still locked)", extra)
 		return false
@@ -122,6 +139,9 @@ func (g *rig) fillCheck(class string) {
 		q := &rq{Method: "GET", Key: fmt.Sprintf("fill%d", i), Status: 200, Size: s}
 		if g.cf.ExpGen {
 			q.ExpSec = 30
+			if g.realtime {
+				q.ExpSec = 86400 // real time: no stall of the machine may let a fill response expire before it is probed
+			}
 		}
 		return q
 	}
